@@ -604,7 +604,8 @@ pub(super) fn add(
         let rhs = operand_load(block, &instruction.operands()[2], bits)?;
 
         // perform operation
-        let src = il::Expression::add(lhs, rhs).unwrap();
+        // operands of different widths (vector forms) are not supported
+        let src = il::Expression::add(lhs, rhs).map_err(|_| unsupported())?;
 
         // store result
         operand_store(block, &instruction.operands()[0], src)?;
@@ -631,7 +632,9 @@ pub(super) fn adds(
         let rhs = operand_load(block, &instruction.operands()[2], bits)?;
 
         // perform operation
-        let result = il::Expression::add(lhs.clone(), rhs.clone()).unwrap();
+        // operands of different widths (vector forms) are not supported
+        let result =
+            il::Expression::add(lhs.clone(), rhs.clone()).map_err(|_| unsupported())?;
 
         let unsigned_sum = il::Expression::add(
             il::Expression::zext(72, lhs.clone()).unwrap(),
@@ -1409,7 +1412,8 @@ pub(super) fn sub(
         let rhs = operand_load(block, &instruction.operands()[2], bits)?;
 
         // perform operation
-        let src = il::Expression::sub(lhs, rhs).unwrap();
+        // operands of different widths (vector forms) are not supported
+        let src = il::Expression::sub(lhs, rhs).map_err(|_| unsupported())?;
 
         // store result
         operand_store(block, &instruction.operands()[0], src)?;
@@ -1436,7 +1440,9 @@ pub(super) fn subs(
         let rhs = operand_load(block, &instruction.operands()[2], bits)?;
 
         // perform operation
-        let result = il::Expression::sub(lhs.clone(), rhs.clone()).unwrap();
+        // operands of different widths (vector forms) are not supported
+        let result =
+            il::Expression::sub(lhs.clone(), rhs.clone()).map_err(|_| unsupported())?;
 
         let unsigned_sum = il::Expression::sub(
             il::Expression::zext(72, lhs.clone()).unwrap(),
